@@ -369,6 +369,32 @@ func runC19(r *Rng, tier string, n int) {
 			}
 		}
 	}
+	// (2z) the maximal NUMBER of labels: k one-octet labels for k around 127 (255 octets on the wire), alone,
+	// against themselves, against their parents and against a case-flipped twin
+	for k := 120; k <= 127; k++ {
+		for _, fill := range []byte{'a', 'Z', '.', '\\'} {
+			ls := make([][]byte, k)
+			tw := make([][]byte, k)
+			for i := range ls {
+				ls[i] = []byte{fill}
+				tw[i] = []byte{fill ^ 0x20}
+			}
+			s1 := c19Oracle(ls)
+			if s1 == "" {
+				continue
+			}
+			c19PairOracle(ls, ls, s1, s1)
+			if s2 := c19Oracle(ls[1:]); s2 != "" {
+				c19PairOracle(ls[1:], ls, s2, s1)
+				c19PairOracle(ls, ls[1:], s1, s2)
+			}
+			if fill == 'a' || fill == 'Z' {
+				if s3 := c19Oracle(tw); s3 != "" {
+					c19PairOracle(ls, tw, s1, s3)
+				}
+			}
+		}
+	}
 	// (3) random long names and related pairs
 	full := []byte("abcXYZ019-_.\\ \"();@'$")
 	for i := 0; i < nrand; i++ {
